@@ -12,7 +12,7 @@ def run(tier, seed, work, replay):
     res, evs = tablecheck.run_table(
         "C13", tier, seed, work, "KMWeb", ["MC_KMWeb_C13.cfg"], "Gen_KMWeb", "Gen_KMWeb_C13.cfg",
         "Trace_KMWeb", "Trace_KMWeb.cfg", sig,
-        lambda e: (tuple(sorted(e["case"]["url"].items())), e["case"]["client"], e["case"]["site"], e["out"]["redirected"]))
+        lambda e: (tuple(sorted(e["case"]["url"].items())), e["case"]["client"], e["case"]["site"], e["out"]["redirected"]), chunk=60000)
     res.cov["rule"] = ("URL structures (scheme x host class x port x path x query x user-info/fragment/backslash quirk) x "
                        "client configuration x site (redirect validator, authorize endpoint end-to-end, CORS origin rule), "
                        "TLC-enumerated; the browser-view host of each rendered string is fixed by construction; "
